@@ -107,5 +107,14 @@ CHECKS = {
         note="Trees compared through vf.tree2ir (own lark-tree-to-IR converter); signed numeric literal '-1' identified with -(1); one recorded finding ('[]' dumped as '').",
         design_ref="DESIGN.md §4 C06",
     ),
+    "C12": dict(
+        technique="exhaustive enumeration of binding sets x packages x references against a reference resolver written from the statement + property-based testing of nested macro scoping against the reference evaluator",
+        category="exploration",
+        text="Every subset of the prefixes of a.b.c bound as value or map at every package level, packages none/p/p.q, seven references, with and without "
+             "declarations: outcome vs a 40-line reference resolver (undetermined combinations skipped and counted); random binding sets; generated programs with "
+             "nested macros whose variables collide with outer bindings vs vf.refcel; both runners.",
+        note="'.name' under a package, namespace-only references and package prefixes bound to values are not determined by the statement and skipped; one recorded finding (name bound as value and namespace).",
+        design_ref="DESIGN.md §4 C12",
+    ),
 }
 NOT_APPLICABLE = {}
